@@ -304,6 +304,18 @@ class Process(Event):
         """``True`` until the process generator exits."""
         return self._value is PENDING
 
+    def succeed(self, value: Optional[Any] = None) -> 'Event':
+        """A process is triggered by the end of its generator only."""
+        raise RuntimeError(f'{self} is triggered by its own termination only.')
+
+    def fail(self, exception: BaseException) -> 'Event':
+        """A process is triggered by the end of its generator only."""
+        raise RuntimeError(f'{self} is triggered by its own termination only.')
+
+    def trigger(self, event: Event) -> None:
+        """A process is triggered by the end of its generator only."""
+        raise RuntimeError(f'{self} is triggered by its own termination only.')
+
     def interrupt(self, cause: Optional[Any] = None) -> None:
         """Interupt this process optionally providing a *cause*.
 
